@@ -56,6 +56,27 @@ def run(ctx: core.Ctx) -> int:
                     and ast.unparse(dc.value).replace(" ", "") == f"getattr(self,{kv})" and not dc.generators[0].ifs:
                 gp_keys = list(ak or [])
         if gp_keys is None:
+            # dict(zip(K, attrgetter(*K)(self))) with K the allowed_keys table (>= 2 names, so attrgetter returns a tuple): the same table;
+            # read on the normalised method (a private helper that builds it is inlined, the getter bound to a local is read through)
+            from .. import normast as _nmg, astpat as _ap
+            gpn = _nmg.Normaliser(_nmg.class_resolver(mod, cls)).function(gp)
+            RAg = _ap.resolver(gpn)[0]
+            for r in ast.walk(gpn):
+                if isinstance(r, ast.Return) and r.value is not None:
+                    v = RAg(r.value)
+                    txt = ast.unparse(v).replace(" ", "")
+                    for K in ("self.allowed_keys", "cls.allowed_keys", f"{CLS}.allowed_keys"):
+                        if txt in (f"dict(zip({K},attrgetter(*{K})(self)))", f"dict(zip({K},operator.attrgetter(*{K})(self)))") and ak and len(ak) >= 2:
+                            gp_keys = list(ak)
+                    if isinstance(v, ast.DictComp) and len(v.generators) == 1 and isinstance(v.generators[0].target, ast.Name) and not v.generators[0].ifs:
+                        kv = v.generators[0].target.id
+                        if ast.unparse(v.generators[0].iter) in ("self.allowed_keys", "cls.allowed_keys", f"{CLS}.allowed_keys") and ast.unparse(v.key) == kv \
+                                and ast.unparse(v.value).replace(" ", "") == f"getattr(self,{kv})":
+                            gp_keys = list(ak or [])
+                    if isinstance(v, ast.Dict) and all(isinstance(k_, ast.Constant) for k_ in v.keys):
+                        gp_dict = v
+                        gp_keys = [k_.value for k_ in v.keys]
+        if gp_keys is None:
             ctx.error(f"{F}:{q('get_params')}: the returned table is neither a dict literal nor {{k: getattr(self, k) for k in self.allowed_keys}}")
             gp_keys = list(ak or [])
     cr_dict = next((s.value for s in ast.walk(cr) if isinstance(s, ast.Assign) and isinstance(s.value, ast.Dict)), None)
